@@ -120,7 +120,7 @@ class SimThreadState:
 class Sim:
     def __init__(self, decisions, line_mean=0, p_stall=0.0, stall_window=0.0,
                  sleep_jitter=0.0, trace_roots=(), max_steps=2_000_000,
-                 keep_log=False, jitter_rng=None, max_time=3600.0):
+                 keep_log=False, jitter_rng=None, max_time=3600.0, max_no_progress=400_000):
         global SIM
         SIM = self
         self.dec = decisions
@@ -141,6 +141,8 @@ class Sim:
         self.trace_roots = tuple(trace_roots)
         self._trace_cache = {}
         self.max_steps = max_steps
+        # scheduler steps without the clock advancing: a zero-latency handshake with 600-entry tables needs > 1 M
+        self.max_no_progress = max_no_progress
         self.max_time = max_time
         self.steps = 0
         self.steps_no_progress = 0
@@ -352,7 +354,12 @@ class Sim:
                 raise SimAbort()
             self.steps += 1
             self.steps_no_progress += 1
-            if self.steps > self.max_steps or self.steps_no_progress > 400_000:
+            if self.steps_no_progress > self.max_no_progress:
+                # the system keeps executing without ever blocking or letting time pass: a livelock of the code
+                # under test (e.g. a request/reply loop on a zero-latency link), reported like a hang
+                self._finish('livelock', self.describe_threads())
+                continue
+            if self.steps > self.max_steps:
                 self._finish('harness', 'step cap reached (steps=%d, no-progress=%d) at t=%.6f'
                              % (self.steps, self.steps_no_progress, self.now))
                 continue
